@@ -525,6 +525,19 @@ impl ModuleD {
         }
     }
     /// local function body for function index `f`, if local
+    /// the generator's identity tag of a function (`i64.const 0x7a6000+k; drop`
+    /// at the start of the body), if it has one
+    pub fn func_tag(&self, f: u32) -> Option<i64> {
+        let b = self.body(f)?;
+        match (b.ops.first(), b.ops.get(1)) {
+            (Some(o), Some(p)) if o.name == "I64Const" && p.name == "Drop" => match o.imms.first() {
+                Some(crate::ops::Imm::I64(v)) if (0x7a6000..0x7a6000 + 100_000).contains(v) => Some(*v),
+                _ => None,
+            },
+            _ => None,
+        }
+    }
+
     pub fn body(&self, f: u32) -> Option<&FuncD> {
         let ni = self.imp_funcs.len() as u32;
         if f < ni {
